@@ -2390,8 +2390,12 @@ impl IndexedChangeSet {
 						*reindex = true;
 					}
 				},
-				NodeChange::DereferenceChildren(key, hash, children, _) => {
-					if let Some((_root, rc)) = column.get(hash, writer)? {
+				NodeChange::DereferenceChildren(key, hash, _children, _) => {
+					if let Some((root, rc)) = column.get(hash, writer)? {
+						// The children of the root that is removed now. The list taken when the
+						// transaction was submitted is that of another root if an earlier operation
+						// of the transaction replaced it.
+						let children = &unpack_node_data(root)?.1;
 						column.write_plan(&Operation::Dereference(*hash), writer)?;
 						log::debug!(target: "parity-db", "Dereferencing root, rc={}", rc);
 						if rc == 1 {
